@@ -1364,7 +1364,7 @@ def run(ctx):
         acc_strings += [seq_str(q) for q in sorted(accset, key=lambda q: (len(q), q)) if len(q) > 2]
         acc_strings += sorted(extra_past_parser, key=lambda q: (len(q), q))
         acc_strings += [seq_str(q, "sym2") for L in (1, 2) for q in itertools.product(range(len(SYMS2)), repeat=L)]
-        acc_strings += [c[0] for c in cases[nall:nenum] if c[1] == "acc" and c[0] not in set(acc_strings)]
+        acc_strings += [c[0] for c in cases[nall:nenum] if c[1] == "acc"]
         seen_ = set()
         acc_strings = [x for x in acc_strings if not (x in seen_ or seen_.add(x))]
         # ... and the non-fresh FFIs: every pair / API-mode block, the accepted strings in shared blocks
